@@ -31,7 +31,7 @@ ASSUMPTIONS = [
     'pre-emption points as in C20 (lines of awesomeyaml code, opcodes in the critical functions, simulated I/O, recorder calls)',
 ]
 TIERS = {
-    'quick': {'runs': 900, 'wall_cap': 75, 'chunk': 8, 'min_budget': 50, 'min_each': 25},
+    'quick': {'runs': 3000, 'wall_cap': 75, 'chunk': 8, 'min_budget': 50, 'min_each': 25},
     'thorough': {'runs': 30000, 'wall_cap': 900, 'chunk': 16, 'min_budget': 200, 'min_each': 60},
 }
 CWD = '/w'
